@@ -28,7 +28,9 @@ PoolGen == PoolSmall \cup {
   T("name3",    "name",     "u3", "u3", "this",  "name", 0, ""),
   T("forged3",  "stake",    "u3", "u2", "this",  "sys", 3, ""),
   T("callfail3","call",     "u3", "u3", "this",  "c1", 2, "fail"),
-  T("xfercb",   "transfer", "u1", "u1", "this",  "cb", 1, "")
+  T("xfercb",   "transfer", "u1", "u1", "this",  "cb", 1, ""),
+  T("vote1",    "vote",     "u1", "u1", "this",  "sys", 0, ""),
+  T("vote3",    "vote",     "u3", "u3", "this",  "sys", 0, "")
 }
 AllModes == {"next", "dup", "gap"}
 GenView == [bal |-> bal, nonce |-> nonce, staked |-> staked, total |-> total, owner |-> owner, deployed |-> deployed,
